@@ -87,7 +87,7 @@ def gen_script(rng, max_gates=24, max_in=6, max_ff=3, p_glitchy=0.2, style=None,
     for _ in range(rng.randint(0, 2)): outs.append(rng.randrange(n_sig))
     if not outs: outs.append(max(0, n_sig - 1))
     rng.shuffle(outs)
-    fmode = [rng.choice([0, 0, 1, 1, 2, 3]) for _ in range(rng.randint(1, 8))]
+    fmode = [rng.choice([0, 0, 1, 1, 2, 3, 4]) for _ in range(rng.randint(1, 8))]
     return {'style': style, 'n_in': n_in, 'floating': n_fl, 'ffs': ffs, 'gates': gates, 'outs': outs, 'fmode': fmode,
             'io_mix': rng.random() < 0.3, 'fork_rev': rng.random() < 0.25, 'node_shuffle': rng.randrange(1, 1 << 16) if rng.random() < 0.25 else 0}
 
@@ -227,13 +227,16 @@ def reorder(c, seed, ports_first=False):
     c2 = Circuit(c.name)
     new = {}
     for n in nodes: new[id(n)] = Node(c2, n.name, n.kind)
-    for l in c.lines:
+    lines = list(c.lines)
+    if seed % 2: random.Random(seed + 1).shuffle(lines)      # lines, too, may be created in any order (other line indices)
+    for l in lines:
         Line(c2, (new[id(l.driver)], l.driver_pin), (new[id(l.reader)], l.reader_pin))
     for n in c.io_nodes: c2.io_nodes.append(new[id(n)])
     return c2
 
 
 def _prefork(c, rd, mode, name):
+    if mode == 4: return [Node(c, f'{name}~c{k}') for k in range(3)]
     if mode == 2: return [Node(c, f'{name}~b{k}') for k in range(len(rd))]
     if mode == 3 and len(rd) >= 2: return [Node(c, f'{name}~{part}') for part in ('l', 'r')]
     return None
@@ -246,6 +249,15 @@ def _fan(c, fork, rd, mode, name, pre=None):
             bf = pre[k] if pre else Node(c, f'{name}~b{k}')
             Line(c, fork, (bf, 0))
             Line(c, bf, r)
+    elif mode == 4:      # a chain of three more forks below the signal's fork; readers hang off every stage
+        stages = pre if pre else [Node(c, f'{name}~c{k}') for k in range(3)]
+        up = fork
+        for sf in stages:
+            Line(c, up, (sf, 0))
+            up = sf
+        allf = [fork] + list(stages)
+        for k, r in enumerate(rd):
+            Line(c, allf[(len(allf) - 1 - k) % len(allf)], r)      # the first reader at the deepest stage
     elif mode == 3 and len(rd) >= 2:   # fork tree
         h = len(rd) // 2
         for j, (part, grp) in enumerate((('l', rd[:h]), ('r', rd[h:]))):
